@@ -33,17 +33,6 @@ def handler (mode : String) (line : String) : String :=
                 | none => "fail step=0 idx=0 clause=unparsable-observation"
           | none => "ok"
       | _ => "(bad-line)"
-  | "parse" =>
-      match parseManyFast line with
-      | some [ct, ot] =>
-          match caseOf? ct with
-          | some c => (match obsOf? c.probes ot with | some o => s!"{o.length}" | none => "unparsable")
-          | none => "(bad-case)"
-      | _ => "(bad-line)"
-  | "parse0" =>
-      match parseManyFast line with
-      | some l => s!"{l.length}"
-      | _ => "(bad-line)"
   | _ => "(bad-mode)"
 
 end Rbgp.C14
